@@ -162,3 +162,23 @@ class load_network_malformed:
 
     def ensures(result, network_dict):
         return {'rejected': raised(result)}
+
+
+from pyvc.spec import json_file
+
+
+@contract('CircuitCalculator.Network.loaders.load_network_from_json', props=P, bounded='description lists of length 2')
+class load_network_from_json_file:
+    """The file loader returns exactly what load_network returns for the document stored in the file."""
+    def inputs(g):
+        return dict(doc=[{'N1': g.label('a1'), 'N2': '0', 'id': g.label('id1'), 'type': 'resistor', 'R': g.real('R')},
+                         {'N1': '0', 'N2': g.label('b2'), 'id': g.label('id2'), 'type': 'real_voltage_source', 'V': g.real('V')}])
+
+    def requires(doc):
+        return doc[0]['id'] != doc[1]['id']
+
+    def call(f, doc):
+        return f(json_file(doc))
+
+    def ensures(result, doc):
+        return {'same as loading the document': eq(result, ld.load_network(doc))}
